@@ -617,6 +617,12 @@ const (
 
 // c02Explore walks all feasible paths from (start block, index) under env.
 func c02Explore(start *ssa.BasicBlock, startIdx int, env *c02Env, visit func(in ssa.Instruction) c02Action) (hits []c02Hit, exhausted bool) {
+	return c02ExploreEdges(start, startIdx, env, visit, nil)
+}
+
+// c02ExploreEdges is c02Explore with an edge filter: a CFG edge for which
+// edgeStop returns true is not followed.
+func c02ExploreEdges(start *ssa.BasicBlock, startIdx int, env *c02Env, visit func(in ssa.Instruction) c02Action, edgeStop func(from, to *ssa.BasicBlock) bool) (hits []c02Hit, exhausted bool) {
 	type item struct {
 		b      *ssa.BasicBlock
 		idx    int
@@ -658,6 +664,9 @@ func c02Explore(start *ssa.BasicBlock, startIdx int, env *c02Env, visit func(in 
 		}
 		last := it.b.Instrs[len(it.b.Instrs)-1]
 		push := func(to *ssa.BasicBlock, env *c02Env, opq []ssa.Value) {
+			if edgeStop != nil && edgeStop(it.b, to) {
+				return
+			}
 			env.enter(it.b, to)
 			tr := append(append([]*ssa.BasicBlock{}, it.trail...), to)
 			work = append(work, item{to, 0, env, tr, opq})
